@@ -83,8 +83,7 @@ def same_array(A, B):
 
 
 def is_int(x):
-    import numbers
-    return isinstance(x, numbers.Integral)
+    return type(x) == int
 
 
 def defines(a, b):
@@ -494,3 +493,7 @@ def count_change(*a):
 
 def consecutive_even(p):
     return True
+
+
+def is_list(x):
+    return type(x) == list
